@@ -198,6 +198,33 @@ func judge(res *core.Result, w *env.World, ops []opRun, scen, driverKind, word s
 					break
 				}
 			}
+			// clause loser-wrote-foreign-record: a refused op performed no successful storage write
+			// on a revision record it did not itself create (creator = agent of the 201 POST)
+			seenFW := map[string]bool{}
+			for _, ev := range events {
+				if ev.o != o || ev.e.Class != "storage" || ev.e.Name == "" || (ev.e.Method != "PUT" && ev.e.Method != "DELETE") || ev.e.Code < 200 || ev.e.Code >= 300 {
+					continue
+				}
+				var cur *write
+				for i := range creates[ev.e.Name] {
+					if c := &creates[ev.e.Name][i]; c.e.Seq < ev.e.Seq {
+						cur = c
+					}
+				}
+				if cur != nil && cur.o == o {
+					continue
+				}
+				role := "a pre-existing revision record"
+				if cur != nil {
+					role = "a revision record created by a concurrent " + opLabel(cur.o.op)
+				}
+				cls := fmt.Sprintf("%s failed with %s after storage %s of %s", opLabel(o.op), o.class, ev.e.Method, role)
+				if seenFW[cls] {
+					continue
+				}
+				seenFW[cls] = true
+				res.Add("loser-wrote-foreign-record", cls, "%s returned %q but had performed storage %s %s -> %d (seq %d) on a record it did not create | %s", o.agent, o.err, ev.e.Method, ev.e.Name, ev.e.Code, ev.e.Seq, detail())
+			}
 		default:
 			// neither success nor a lock error
 			shape := ""
@@ -264,6 +291,49 @@ func judge(res *core.Result, w *env.World, ops []opRun, scen, driverKind, word s
 	// quiescence
 	recs, bad := w.Ledger(relName)
 	ref.LedgerBasic(res, recs, bad, "after concurrent "+combo, detail)
+	// clause success-not-in-history: the revision created by an op that returned success is
+	// present and deployed, or superseded (or pruned by a history limit) when another successful
+	// op created a later revision; never failed / pending / missing otherwise
+	ownRev := map[*opRun]int{}
+	for _, k := range keys {
+		for _, c := range creates[k] {
+			if rev, ok := ref.StorageKeyRev(k); ok {
+				ownRev[c.o] = rev
+			}
+		}
+	}
+	anyLimit := false
+	for i := range ops {
+		if ops[i].op.MaxHistory > 0 {
+			anyLimit = true
+		}
+	}
+	for i := range ops {
+		o := &ops[i]
+		rev, created := ownRev[o]
+		if o.class != "ok" || !created {
+			continue
+		}
+		later := false
+		for p, r := range ownRev {
+			if p != o && p.class == "ok" && r > rev {
+				later = true
+			}
+		}
+		state := "missing"
+		if rec := ref.Find(recs, rev); rec != nil {
+			state = rec.Status
+		}
+		okState := state == "deployed" || (state == "superseded" && later) || (state == "missing" && later && anyLimit)
+		if !okState {
+			what := state
+			if state == "superseded" || state == "missing" {
+				what += " although no other successful op created a later revision"
+			}
+			res.Add("success-not-in-history", fmt.Sprintf("%s returned nil but its revision ended %s", opLabel(o.op), what),
+				"%s reported success for revision %d, which is %s at quiescence | %s", o.agent, rev, state, detail())
+		}
+	}
 	return j
 }
 
